@@ -134,6 +134,13 @@ fn main() {
         "failing_unions": {"total": cfu, "at_first_transferred": c_first, "in_the_middle": c_mid, "at_last_transferred": c_last, "leaving_a_changed": cres_n}}));
     run.ev.add_u64("states", cs);
     run.ev.add_u64("transitions", ct);
+    {
+        let (ms, mv, mj) = checks::medium::run_all(&["qf", "cuckoo"], run.thorough(), n_threads());
+        run.ev.set("medium_scale_runs", json!({"configurations": mj, "operations": ms.ops, "reference_comparisons": ms.comparisons, "note": "failing inserts / unions on tables of 64..4096 slots; complements the exhaustive tiny-scope search"}));
+        for v in mv {
+            run.violation(v);
+        }
+    }
     run.ev.set("failing_calls", json!({"quotient_inserts": fi, "quotient_unions_first/middle/last": [fu_first, fu_mid, fu_last], "cuckoo_inserts": cfi, "cuckoo_unions": cfu}));
     // vacuity guard: every class of failing call must actually have been exercised
     if run.n_violations() == 0 && (fi == 0 || fu_first == 0 || fu_mid == 0 || fu_last == 0 || cfi == 0 || c_first == 0 || c_mid == 0 || c_last == 0) {
